@@ -579,6 +579,16 @@ func contractMentions(c *Contract, prop string) bool {
 			return true
 		}
 	}
+	for _, cl := range c.Covers {
+		if has(cl) {
+			return true
+		}
+	}
+	for _, t := range c.CalleeTags {
+		if t == prop {
+			return true
+		}
+	}
 	for _, l := range c.Loops {
 		for _, cl := range l.Invariants {
 			if has(cl) {
